@@ -101,6 +101,14 @@ def size_check_obligations(ctx, clause_prefix='D1'):
     # the raising comparison
     ifs = [n for n in own_nodes(chk.node) if isinstance(n, ast.If) and
            (always_raises(n.body) or always_raises(n.orelse))]
+    # also a test that decides a raise without enclosing it (`if actual == expected: return` followed by `raise`)
+    from ..pathcond import branch_cond_nodes
+    polarity = {id(n): always_raises(n.body) for n in ifs}
+    for r_ in (n for n in own_nodes(chk.node) if isinstance(n, ast.Raise)):
+        for ifn, when_true in branch_cond_nodes(chk, r_):
+            if ifn not in ifs:
+                ifs.append(ifn)
+                polarity[id(ifn)] = bool(when_true)
     def closure_exprs(test):
         """test expression plus every defining RHS it (transitively) depends on."""
         seen, out, work = set(), [test], [test]
@@ -122,7 +130,7 @@ def size_check_obligations(ctx, clause_prefix='D1'):
                 detail='no raising comparison involving the actual file size found')
         return chk
     st = sized[0]
-    strict, why = _strict(st)
+    strict, why = _strict(st, polarity.get(id(st)))
     ctx.decide(strict, 'R-DOM', clause_prefix, chk, st, 'size-comparison-strict',
                f'size check `{norm(st.test)}` rejects every mismatch (too short and too long)',
                detail=why)
@@ -196,9 +204,10 @@ def size_check_obligations(ctx, clause_prefix='D1'):
     return chk
 
 
-def _strict(st):
+def _strict(st, raising_when_true=None):
     t = st.test
-    raising_when_true = always_raises(st.body)
+    if raising_when_true is None:
+        raising_when_true = always_raises(st.body)
     if isinstance(t, ast.UnaryOp) and isinstance(t.op, ast.Not):
         t = t.operand
         raising_when_true = not raising_when_true
